@@ -129,6 +129,22 @@ def main(argv=None):
             failure = r['failure']
     samples = samples[:6]
 
+    if os.environ.get('VERIF_SURVEY'):
+        buckets = {}
+        for r in results:
+            for k, b in r.get('buckets', {}).items():
+                bb = buckets.setdefault(k, {'n': 0, 'example': None, 'msg': b['msg']})
+                bb['n'] += b['n']
+                if bb['example'] is None or len(json.dumps(b['example'])) < len(json.dumps(bb['example'])):
+                    bb['example'] = b['example']; bb['msg'] = b['msg']
+        print(f'SURVEY {prop_id}: {evals} cases; buckets:')
+        for k, b in sorted(buckets.items(), key=lambda kv: -kv[1]['n']):
+            print(f"  {b['n']:6d}  {k}\n          {b['msg'][:250]}\n          e.g. {json.dumps(b['example'])[:900]}")
+        with open(os.path.join(VERIF_DIR, f'survey-{prop_id}.json'), 'w') as f:
+            json.dump(buckets, f, indent=1)
+        shutil.rmtree(work, ignore_errors=True)
+        return 0
+
     # known findings: canonical inputs re-run now
     kf_lines, stale = known_finding_lines(prop, prop_id)
     for l in kf_lines:
